@@ -62,6 +62,17 @@ func NestPool() *hist.Pool {
 	}
 }
 
+// HostPool: hostname patterns whose hosts are prefixes of one another, with parameter labels (the
+// hostname/path split inside insert and remove).
+func HostPool() *hist.Pool {
+	return &hist.Pool{
+		Methods:    []string{"GET"},
+		Patterns:   []string{"{h}.b/c", "{h}.b.c/c", "{h}/c", "a.b/c", "a.b.c/c", "{h}.b/d", "/c"},
+		BadMethod:  "get",
+		BadPattern: "{h/c",
+	}
+}
+
 // Case is a replayable C02 case: an operation list whose last operation is the one checked.
 type Case struct {
 	Quick    bool      `json:"quick"`
@@ -72,6 +83,20 @@ type Case struct {
 	// inside one write transaction ended by Commit or Abort
 	Body   []hist.Op `json:"body,omitempty"`
 	Commit bool      `json:"commit,omitempty"`
+	// Read, when set ("iter" or "snapshot"), is a Txn.Iter() / Txn.Snapshot() call issued after the
+	// last operation, just before the ending
+	Read string `json:"read,omitempty"`
+}
+
+// lastRead issues the read that precedes the ending.
+func lastRead(txn *fox.Txn, kind string) {
+	switch kind {
+	case "iter":
+		for range txn.Iter().All() {
+		}
+	case "snapshot":
+		txn.Snapshot().Abort()
+	}
 }
 
 func PoolNamed(name string, quick bool) *hist.Pool {
@@ -82,6 +107,8 @@ func PoolNamed(name string, quick bool) *hist.Pool {
 		return MethodPool()
 	case "nested":
 		return NestPool()
+	case "hosts":
+		return HostPool()
 	case "prefixes-3-methods":
 		return PoolFor(false)
 	}
@@ -101,6 +128,9 @@ func evalBody(p *hist.Pool, cs Case) (class, msg string) {
 		end := "Abort"
 		if cs.Commit {
 			end = "Commit"
+		}
+		if cs.Read != "" {
+			end = "Txn." + cs.Read + " then " + end
 		}
 		return fmt.Sprintf("seed %s, transaction [%s] ended by %s", before.String(), render(cs.Body), end)
 	}
@@ -135,6 +165,7 @@ func evalBody(p *hist.Pool, cs Case) (class, msg string) {
 		}
 	}
 	want := before
+	lastRead(txn, cs.Read)
 	if cs.Commit {
 		txn.Commit()
 		want = cur
@@ -200,8 +231,9 @@ func ForEachBody(c *mc.Ctx, name string, p *hist.Pool, seedMax, bodyLen int, fn 
 		go func() {
 			defer wg.Done()
 			for j := range ch {
-				for _, commit := range []bool{false, true} {
-					fn(Case{Quick: c.Quick(), Pool: name, Path: j.seed, Body: j.body, Commit: commit})
+				fn(Case{Quick: c.Quick(), Pool: name, Path: j.seed, Body: j.body})
+				for _, read := range []string{"", "iter", "snapshot"} {
+					fn(Case{Quick: c.Quick(), Pool: name, Path: j.seed, Body: j.body, Commit: true, Read: read})
 				}
 			}
 		}()
@@ -246,6 +278,7 @@ func RunBody(cs Case, opts ...fox.GlobalOption) (*fox.Router, hist.Model) {
 		_, cur = hist.ModelApply(cur, o)
 		hist.ApplyIn(f, txn, o)
 	}
+	lastRead(txn, cs.Read)
 	if cs.Commit {
 		txn.Commit()
 		return f, cur
@@ -268,7 +301,7 @@ func runBodies(c *mc.Ctx, r *mc.Result, name string, p *hist.Pool, seedMax, body
 		}
 		mu.Unlock()
 	})
-	r.Bounds[fmt.Sprintf("bodies.%s.%d", name, bodyLen)] = fmt.Sprintf("%d seeds (subsets <=%d of %v under %s) x all bodies of %d operations over %d operations x {Commit, Abort}; no Txn.Iter/Snapshot between the operations", ns, seedMax, p.Patterns, p.Methods[0], bodyLen, na)
+	r.Bounds[fmt.Sprintf("bodies.%s.%d", name, bodyLen)] = fmt.Sprintf("%d seeds (subsets <=%d of %v under %s) x all bodies of %d operations over %d operations x {Abort, Commit, Txn.Iter then Commit, Txn.Snapshot then Commit}; no Txn.Iter/Snapshot between the operations", ns, seedMax, p.Patterns, p.Methods[0], bodyLen, na)
 	if stopped {
 		r.NotExhaustive = append(r.NotExhaustive, "bodies "+name+" stopped by the time guard")
 	}
@@ -356,31 +389,56 @@ func indent(s string) string {
 }
 
 func run(c *mc.Ctx, r *mc.Result) {
-	if c.Quick() {
-		runBFS(c, r, "prefixes", PoolFor(true), 2, false)
-	} else {
-		// two methods with up to 3 live routes expanded, and all three methods with up to 2
-		runBFS(c, r, "prefixes", PoolFor(true), 3, false)
-		runBFS(c, r, "prefixes-3-methods", PoolFor(false), 2, false)
-	}
+	// the sub-runs are independent: each gets its own result, they run concurrently (a BFS is
+	// level-synchronous and leaves cores idle at its barriers) and are merged in a fixed order
+	var jobs []func(r *mc.Result)
+	add := func(f func(r *mc.Result)) { jobs = append(jobs, f) }
 	sib := 5
 	if !c.Quick() {
 		sib = 6
 	}
-	runBFS(c, r, "siblings", SiblingPool(), sib, true)
-	runBFS(c, r, "methods", MethodPool(), 3, false)
-	runBFS(c, r, "nested", NestPool(), sib-1, false)
-	runFan(c, r)
 	if c.Quick() {
-		runBodies(c, r, "prefixes", PoolFor(true), 2, 2)
-		runBodies(c, r, "siblings", SiblingPool(), 3, 2)
-		runBodies(c, r, "nested", NestPool(), 2, 2)
+		add(func(r *mc.Result) { runBFS(c, r, "prefixes", PoolFor(true), 2, false) })
 	} else {
-		runBodies(c, r, "prefixes", PoolFor(true), 3, 2)
-		runBodies(c, r, "siblings", SiblingPool(), 4, 2)
-		runBodies(c, r, "nested", NestPool(), 3, 2)
-		runBodies(c, r, "nested", NestPool(), 2, 3)
-		runBodies(c, r, "siblings", SiblingPool(), 2, 3)
+		// two methods with up to 3 live routes expanded, and all three methods with up to 2
+		add(func(r *mc.Result) { runBFS(c, r, "prefixes", PoolFor(true), 3, false) })
+		add(func(r *mc.Result) { runBFS(c, r, "prefixes-3-methods", PoolFor(false), 2, false) })
+	}
+	add(func(r *mc.Result) { runBFS(c, r, "siblings", SiblingPool(), sib, true) })
+	add(func(r *mc.Result) { runBFS(c, r, "methods", MethodPool(), 3, false) })
+	add(func(r *mc.Result) { runBFS(c, r, "nested", NestPool(), sib-1, false) })
+	add(func(r *mc.Result) { runBFS(c, r, "hosts", HostPool(), sib-1, false) })
+	add(func(r *mc.Result) { runFan(c, r) })
+	if c.Quick() {
+		add(func(r *mc.Result) { runBodies(c, r, "prefixes", PoolFor(true), 2, 2) })
+		add(func(r *mc.Result) { runBodies(c, r, "siblings", SiblingPool(), 3, 2) })
+		add(func(r *mc.Result) { runBodies(c, r, "nested", NestPool(), 2, 2) })
+		add(func(r *mc.Result) { runBodies(c, r, "hosts", HostPool(), 2, 2) })
+	} else {
+		add(func(r *mc.Result) { runBodies(c, r, "prefixes", PoolFor(true), 3, 2) })
+		add(func(r *mc.Result) { runBodies(c, r, "siblings", SiblingPool(), 4, 2) })
+		add(func(r *mc.Result) { runBodies(c, r, "nested", NestPool(), 3, 2) })
+		add(func(r *mc.Result) { runBodies(c, r, "hosts", HostPool(), 3, 2) })
+		add(func(r *mc.Result) { runBodies(c, r, "nested", NestPool(), 2, 3) })
+		add(func(r *mc.Result) { runBodies(c, r, "siblings", SiblingPool(), 2, 3) })
+	}
+	results := make([]*mc.Result, len(jobs))
+	var wg sync.WaitGroup
+	sem := make(chan struct{}, 4)
+	for i, j := range jobs {
+		wg.Add(1)
+		go func() {
+			defer wg.Done()
+			sem <- struct{}{}
+			defer func() { <-sem }()
+			rr := mc.NewResult()
+			j(rr)
+			results[i] = rr
+		}()
+	}
+	wg.Wait()
+	for _, rr := range results {
+		r.Merge(rr)
 	}
 }
 
@@ -491,6 +549,9 @@ func replay(c *mc.Ctx, raw json.RawMessage) string {
 	}
 	if cs.Pool == "nested" {
 		p = NestPool()
+	}
+	if cs.Pool == "hosts" {
+		p = HostPool()
 	}
 	if cs.Pool == "fan" {
 		// the pool is every pattern that occurs in the history
